@@ -31,6 +31,7 @@ import (
 //	getenv NAME...         print NAME=<hex value> (or NAME! if unset)
 //	pwd                    print the working directory
 //	touch FILE...          create the files
+//	mktree DIR N           create N small directories with a file each under DIR
 //	sleepexit MS N         sleep MS milliseconds, exit N
 //	hang [TEXT]            print TEXT, block until SIGINT/SIGQUIT/SIGKILL
 //	block FILE [TEXT]      write "pid token" to FILE, print TEXT, block until SIGINT/SIGQUIT (default dispositions)
@@ -96,6 +97,17 @@ func HelperMain() {
 				fmt.Fprintln(os.Stderr, err)
 				os.Exit(1)
 			}
+		}
+	case "mktree":
+		// mktree DIR N: N small directories with a file each (makes removal of the work directory slow)
+		n, _ := strconv.Atoi(args[2])
+		for i := 0; i < n; i++ {
+			d := fmt.Sprintf("%s/d%03d/e%d", args[1], i%50, i)
+			if err := os.MkdirAll(d, 0o777); err != nil {
+				fmt.Fprintln(os.Stderr, err)
+				os.Exit(1)
+			}
+			os.WriteFile(d+"/f", []byte("x"), 0o666)
 		}
 	case "sleepexit":
 		ms, _ := strconv.Atoi(args[1])
